@@ -52,6 +52,14 @@ func unhexIP(s string) net.IP {
 
 func hexIP(ip net.IP) string { return corr.Hex([]byte(ip)) }
 
+// zs renders a zone for the line protocol ("-" = none)
+func zs(z string) string {
+	if z == "" {
+		return "-"
+	}
+	return z
+}
+
 func validIP(ip net.IP) bool { return len(ip) == 4 || len(ip) == 16 }
 
 func viol(c *corr.Ctx, sc *Scenario, clause, key, detail string) {
@@ -68,17 +76,17 @@ func runUnit(c *corr.Ctx, sc *Scenario) {
 		switch op.K {
 		case "fill":
 			ip := unhexIP(op.IP)
-			k, p := gortsplib.VerifPeerFill(ip, op.Port)
-			cs.Ops = append(cs.Ops, fmt.Sprintf("peer fill %s %d", op.IP, op.Port))
-			cs.Impl = append(cs.Impl, fmt.Sprintf("%s %d", corr.Hex(k[:]), p))
+			k, z, p := gortsplib.VerifPeerFill(ip, op.Zone, op.Port)
+			cs.Ops = append(cs.Ops, fmt.Sprintf("peer fill %s %s %d", op.IP, zs(op.Zone), op.Port))
+			cs.Impl = append(cs.Impl, fmt.Sprintf("%s %s %d", corr.Hex(k[:]), zs(z), p))
 		case "eq":
 			a, b := unhexIP(op.IP), unhexIP(op.IP2)
 			cs.Ops = append(cs.Ops, fmt.Sprintf("peer eq %s %s", op.IP, op.IP2))
 			cs.Impl = append(cs.Impl, corr.B(a.Equal(b)))
 			// property: two map keys coincide exactly when port and address agree in Go's sense
 			if validIP(a) && validIP(b) {
-				ka, _ := gortsplib.VerifPeerFill(a, op.Port)
-				kb, _ := gortsplib.VerifPeerFill(b, op.Port)
+				ka, _, _ := gortsplib.VerifPeerFill(a, op.Zone, op.Port)
+				kb, _, _ := gortsplib.VerifPeerFill(b, op.Zone, op.Port)
 				if (ka == kb) != a.Equal(b) {
 					viol(c, sc, "datagrams are delivered only if they come from the negotiated IP address",
 						"fill-not-injective", fmt.Sprintf("fill(%s)==fill(%s) is %v but Equal is %v", op.IP, op.IP2, ka == kb, a.Equal(b)))
@@ -133,13 +141,14 @@ func runSrv(c *corr.Ctx, sc *Scenario) {
 	// property oracle state: the history of registrations
 	type reg struct {
 		ip   net.IP
+		zone string
 		port int
 		cb   int // -1 = removed
 	}
 	var hist []reg
-	expected := func(ip net.IP, port int) (int, bool) {
+	expected := func(ip net.IP, zone string, port int) (int, bool) {
 		for i := len(hist) - 1; i >= 0; i-- {
-			if hist[i].port == port && hist[i].ip.Equal(ip) {
+			if hist[i].port == port && hist[i].zone == zone && hist[i].ip.Equal(ip) {
 				return hist[i].cb, hist[i].cb >= 0
 			}
 		}
@@ -166,22 +175,22 @@ func runSrv(c *corr.Ctx, sc *Scenario) {
 		ip := unhexIP(op.IP)
 		switch op.K {
 		case "sadd":
-			l.AddClient(ip, op.Port, mkcb(op.Cb))
-			hist = append(hist, reg{ip, op.Port, op.Cb})
-			cs.Ops = append(cs.Ops, fmt.Sprintf("peer sadd %s %d %d", op.IP, op.Port, op.Cb))
+			l.AddClient(ip, op.Zone, op.Port, mkcb(op.Cb))
+			hist = append(hist, reg{ip, op.Zone, op.Port, op.Cb})
+			cs.Ops = append(cs.Ops, fmt.Sprintf("peer sadd %s %s %d %d", op.IP, zs(op.Zone), op.Port, op.Cb))
 			cs.Impl = append(cs.Impl, fmt.Sprintf("n %d", l.NumClients()))
 		case "srem":
-			l.RemoveClient(ip, op.Port)
-			hist = append(hist, reg{ip, op.Port, -1})
-			cs.Ops = append(cs.Ops, fmt.Sprintf("peer srem %s %d", op.IP, op.Port))
+			l.RemoveClient(ip, op.Zone, op.Port)
+			hist = append(hist, reg{ip, op.Zone, op.Port, -1})
+			cs.Ops = append(cs.Ops, fmt.Sprintf("peer srem %s %s %d", op.IP, zs(op.Zone), op.Port))
 			cs.Impl = append(cs.Impl, fmt.Sprintf("n %d", l.NumClients()))
 		case "spkt":
 			before := snapshot()
 			now = op.Now
 			lastCb = -1
-			pc.Deliver(&net.UDPAddr{IP: ip, Port: op.Port}, make([]byte, op.Len))
+			pc.Deliver(&net.UDPAddr{IP: ip, Port: op.Port, Zone: op.Zone}, make([]byte, op.Len))
 			got := lastCb
-			cs.Ops = append(cs.Ops, fmt.Sprintf("peer spkt %s %d %d %d", op.IP, op.Port, op.Len, op.Now))
+			cs.Ops = append(cs.Ops, fmt.Sprintf("peer spkt %s %s %d %d %d", op.IP, zs(op.Zone), op.Port, op.Len, op.Now))
 			if got >= 0 {
 				cs.Impl = append(cs.Impl, fmt.Sprintf("cb %d %s", got, statLine(got)))
 				c.Dist("srv-delivered")
@@ -198,11 +207,11 @@ func runSrv(c *corr.Ctx, sc *Scenario) {
 					}
 				}
 				if allValid {
-					want, ok := expected(ip, op.Port)
+					want, ok := expected(ip, op.Zone, op.Port)
 					switch {
 					case got >= 0 && !ok:
 						viol(c, sc, "UDP datagrams are delivered to a session only if they come from the negotiated IP address and port",
-							"srv-foreign-delivered", fmt.Sprintf("op %d: datagram from %s:%d reached callback %d although no registration matches it", i, ip, op.Port, got))
+							"srv-foreign-delivered", fmt.Sprintf("op %d: datagram from %s%%%s:%d reached callback %d although no registration matches it", i, ip, op.Zone, op.Port, got))
 					case got >= 0 && got != want:
 						viol(c, sc, "UDP datagrams are delivered to the session that negotiated the source",
 							"srv-wrong-session", fmt.Sprintf("op %d: datagram from %s:%d reached callback %d, registered is %d", i, ip, op.Port, got, want))
@@ -239,7 +248,8 @@ func runCl(c *corr.Ctx, sc *Scenario) {
 	var now int64
 	delivered := 0
 	var readIP net.IP
-	anyPort := false
+	readZone := ""
+	anyPort, mcast := false, false
 	defer func() {
 		if l != nil {
 			l.Close()
@@ -255,25 +265,25 @@ func runCl(c *corr.Ctx, sc *Scenario) {
 			pc = newFakePC(&net.UDPAddr{IP: net.IPv6zero, Port: 34000})
 			delivered = 0
 			now = 0
-			readIP, anyPort = ip, op.Any
+			readIP, readZone, anyPort, mcast = ip, op.Zone, op.Any, op.Proto == "multicast"
 			var err error
-			l, err = gortsplib.VerifPeerNewClientListener(pc, op.Any, ip, op.Port,
+			l, err = gortsplib.VerifPeerNewClientListener(pc, op.Any, mcast, ip, op.Zone, op.Port,
 				func() time.Time { return time.Unix(now, 0) },
 				func([]byte) bool { delivered++; return false })
 			if err != nil {
 				panic(err)
 			}
 			l.Start()
-			cs.Ops = append(cs.Ops, fmt.Sprintf("peer cinit %s %s %d", corr.B(op.Any), op.IP, op.Port))
+			cs.Ops = append(cs.Ops, fmt.Sprintf("peer cinit %s %s %s %s %d", corr.B(op.Any), corr.B(mcast), op.IP, zs(op.Zone), op.Port))
 			cs.Impl = append(cs.Impl, "ok")
 		case "cpkt":
 			pc.WaitIdle()
 			rpBefore, lastBefore, nBefore := l.ReadPort(), l.LastPacketTime(), delivered
 			now = op.Now
-			pc.Deliver(&net.UDPAddr{IP: ip, Port: op.Port}, make([]byte, op.Len))
+			pc.Deliver(&net.UDPAddr{IP: ip, Port: op.Port, Zone: op.Zone}, make([]byte, op.Len))
 			acc := delivered > nBefore
 			rp, last := l.ReadPort(), l.LastPacketTime()
-			cs.Ops = append(cs.Ops, fmt.Sprintf("peer cpkt %s %d %d %d", op.IP, op.Port, op.Len, op.Now))
+			cs.Ops = append(cs.Ops, fmt.Sprintf("peer cpkt %s %s %d %d %d", op.IP, zs(op.Zone), op.Port, op.Len, op.Now))
 			w := "drop"
 			if acc {
 				w = "acc"
@@ -285,6 +295,10 @@ func runCl(c *corr.Ctx, sc *Scenario) {
 				if validIP(ip) && validIP(readIP) && !readIP.Equal(ip) {
 					viol(c, sc, "datagrams are delivered only if they come from the negotiated IP address",
 						"cl-foreign-ip-delivered", fmt.Sprintf("op %d: datagram from %s accepted, negotiated %s", i, ip, readIP))
+				}
+				if !mcast && op.Zone != readZone {
+					viol(c, sc, "datagrams are delivered only if they come from the negotiated IP address (a scoped IPv6 address includes its zone)",
+						"cl-foreign-zone-delivered", fmt.Sprintf("op %d: datagram from %s%%%s accepted, negotiated %s%%%s", i, ip, op.Zone, readIP, readZone))
 				}
 				if !(op.Port == rpBefore || (anyPort && rpBefore == 0)) {
 					viol(c, sc, "and, unless explicitly relaxed, the port negotiated for that session",
@@ -298,7 +312,7 @@ func runCl(c *corr.Ctx, sc *Scenario) {
 					viol(c, sc, "datagrams from any other source do not affect callbacks, statistics or timeouts",
 						"cl-drop-side-effect", fmt.Sprintf("op %d: (readPort,last,n) (%d,%d,%d) -> (%d,%d,%d)", i, rpBefore, lastBefore, nBefore, rp, last, delivered))
 				}
-				if validIP(ip) && validIP(readIP) && readIP.Equal(ip) && (op.Port == rpBefore || (anyPort && rpBefore == 0)) {
+				if validIP(ip) && validIP(readIP) && readIP.Equal(ip) && (mcast || op.Zone == readZone) && (op.Port == rpBefore || (anyPort && rpBefore == 0)) {
 					viol(c, sc, "datagrams from the negotiated source are delivered",
 						"cl-negotiated-dropped", fmt.Sprintf("op %d: datagram from %s:%d dropped", i, ip, op.Port))
 				}
